@@ -163,6 +163,7 @@ type c05env struct {
 	recSync bool                             // C06: record Sync calls of the IO leaves' sinks
 	mkSink  func(id int) zapcore.WriteSyncer // C06 child processes: file-backed buffered sinks
 	onHook  func(id int)                     // C06 child processes: hook events go to a file
+	onEntry func(id int, e zapcore.Entry)    // C06: the Entry every zap.Hooks hook was handed
 	onSamp  func(k int, dropped bool)        // C06 child processes: sampler decisions go to a file
 }
 
@@ -237,9 +238,12 @@ func (env *c05env) build(n *c05node) zapcore.Core {
 		return zapcore.NewTee(cs...)
 	case 3:
 		id := n.id
-		return zapcore.RegisterHooks(env.build(n.kids[0]), func(zapcore.Entry) error {
+		return zapcore.RegisterHooks(env.build(n.kids[0]), func(e zapcore.Entry) error {
 			if env.onHook != nil {
 				env.onHook(id)
+			}
+			if env.onEntry != nil {
+				env.onEntry(id, e)
 			}
 			env.events = append(env.events, c05ev{1, id})
 			if id%2 == 1 {
